@@ -228,6 +228,9 @@ package keeper
 // too few. Invariant of the draw loop: the live prefix memberIdx[0 .. n-i) is duplicate-free and in range, and
 // every member selected so far sits at an index that is no longer in that prefix.
 //@ func (k Keeper) GetRandomMembers
+//@ modifies RngLast, RngEntropy, RngNonce, RngPers
+// the draw is a function of (rolling seed, given nonce = signing id || attempt, chain id) only
+//@ ensures err == nil ==> RngEntropy == rollingSeedOf(Other) && RngNonce == nonce && RngPers == bytes(ctx.ChainID())
 //@ requires wfGroupMembers(Store_tss, groupID)
 //@ ensures err == nil ==> len(result) == old(groupAt(Store_tss, groupID)).Threshold
 //@ ensures err == nil ==> (forall a, b :: 0 <= a && a < b && b < len(result) ==> result[a] != result[b])
@@ -375,3 +378,12 @@ package keeper
 //@         wrapu64(o.CreatedHeight + old(tssParams(Store_tss)).CreationPeriod) <= wrapu64(ctx.BlockHeight())
 //@         && groupAt(Store_tss, g) == ((o.Status != types.GROUP_STATUS_ACTIVE && o.Status != types.GROUP_STATUS_FALLEN) ? with(o, "Status", types.GROUP_STATUS_EXPIRED) : o))
 //@ loop 0: invariant forall g Int :: g >= groupID || g <= old(lastExpiredGroup(Store_tss)) ==> Store_tss[types.GroupStoreKey(g)] == old(Store_tss)[types.GroupStoreKey(g)]
+
+// C04: round-1 data is accepted only with exactly `threshold` coefficient commitments and with BOTH proofs of
+// possession - for the one-time key and for the constant-term commitment (commitment 0) - made for THIS member id
+// under THIS group's DKG context.
+//@ func (k Keeper) ValidateRound1Info
+//@ requires group.Threshold >= 1
+//@ ensures err == nil <==> (len(round1Info.CoefficientCommits) == group.Threshold && has(Store_tss, types.DKGContextStoreKey(group.ID))
+//@        && tss.validOneTimeSig(round1Info.MemberID, Store_tss[types.DKGContextStoreKey(group.ID)], round1Info.OneTimeSignature, round1Info.OneTimePubKey)
+//@        && tss.validA0Sig(round1Info.MemberID, Store_tss[types.DKGContextStoreKey(group.ID)], round1Info.A0Signature, round1Info.CoefficientCommits[0]))
